@@ -1083,6 +1083,15 @@ class AbsInt:
                         eq_ = const_eq(ab[0], ab[1])
                         if eq_ is not None:
                             res = ('int', int(eq_ != name.endswith('ne')), 'bool')
+                if res is None and argvals and name.endswith(('Option::<T>::is_none', 'Option::<T>::is_some', 'Result::<T, E>::is_ok', 'Result::<T, E>::is_err')):
+                    # a test of which variant a known Option / Result is
+                    a0 = argvals[0]
+                    for _ in range(3):
+                        if a0[0] == 'ref' and a0[1] in env:
+                            a0 = env[a0[1]]
+                    if a0[0] == 'agg' and a0[1] in ('core::result::Result', 'core::option::Option') and a0[2] in ('Ok', 'Err', 'Some', 'None'):
+                        want = {'is_none': 'None', 'is_some': 'Some', 'is_ok': 'Ok', 'is_err': 'Err'}[name.split('::')[-1]]
+                        res = ('int', int(a0[2] == want), 'bool')
                 if res is None and name.endswith('Try>::branch') and argvals and argvals[0][0] == 'agg' and \
                         argvals[0][1] in ('core::result::Result', 'core::option::Option') and argvals[0][2] in ('Ok', 'Err', 'Some', 'None'):
                     a0 = argvals[0]
